@@ -14,21 +14,21 @@ Lemma tls_policy_permanent cfg tls p id f rest :
   (f_tls f = TlsNone \/
    ((forall r, rest <> SProceed :: r) /\ is_cut rest = false) \/
    ((exists r, rest = SProceed :: r) /\ tls = false)) ->
-  attempt_of true (connect cfg true tls p (SHeader id :: SFeatures f :: rest)) = AFail true true.
+  exists d, attempt_of true (connect cfg true tls p (SHeader id :: SFeatures f :: rest)) = AFail true d.
 Proof.
   intros Hi H. unfold attempt_of, connect. cbn [negb read_header read_features]. rewrite Hi.
-  destruct (f_tls f) eqn:Et; [reflexivity| |].
-  all: destruct H as [H|[[H Hc]|[[r ->] ->]]]; try discriminate; try reflexivity.
-  all: destruct rest as [|[] r]; try discriminate Hc; try reflexivity.
+  destruct (f_tls f) eqn:Et; [eexists; reflexivity| |].
+  all: destruct H as [H|[[H Hc]|[[r ->] ->]]]; try discriminate; try (eexists; reflexivity).
+  all: destruct rest as [|[] r]; try discriminate Hc; try (eexists; reflexivity).
   all: exfalso; eapply H; reflexivity.
 Qed.
 
 Lemma refused_handshake_permanent cfg p id f r :
   c_insecure cfg = false -> f_tls f <> TlsNone ->
-  attempt_of true (connect cfg true false p (SHeader id :: SFeatures f :: SProceed :: r)) = AFail true true.
+  exists d, attempt_of true (connect cfg true false p (SHeader id :: SFeatures f :: SProceed :: r)) = AFail true d.
 Proof.
   intros Hi Ht. unfold attempt_of, connect. cbn [negb read_header read_features read_proceed]. rewrite Hi.
-  destruct (f_tls f); [congruence| |]; reflexivity.
+  destruct (f_tls f); [congruence| |]; eexists; reflexivity.
 Qed.
 
 Lemma refused_handshake_ends_retry_loop cfg p id f r sm es0 es :
@@ -41,7 +41,7 @@ Lemma refused_handshake_ends_retry_loop cfg p id f r sm es0 es :
   m_conns s' = S (m_conns s) /\ m_estab s' = m_estab s /\
   (m_phase s' = MDead \/ m_phase s' = MReturned).
 Proof.
-  intros Hi Ht s P. cbn zeta. rewrite (refused_handshake_permanent cfg p id f r Hi Ht).
+  intros Hi Ht s P. cbn zeta. destruct (refused_handshake_permanent cfg p id f r Hi Ht) as [d ->].
   apply permanent_stops; [apply reachable_inv|exact P].
 Qed.
 
@@ -49,27 +49,27 @@ Qed.
    and the resumption state with it, is gone *)
 Lemma cut_in_negotiation_transient cfg tls p id f rest :
   is_cut rest = true ->
-  attempt_of true (connect cfg true tls p (SHeader id :: rest)) = AFail false true /\
+  (exists d, attempt_of true (connect cfg true tls p (SHeader id :: rest)) = AFail false d) /\
   (f_tls f <> TlsNone ->
-   attempt_of true (connect cfg true tls p (SHeader id :: SFeatures f :: rest)) = AFail false (negb (c_insecure cfg))) /\
-  is_noise (EAttempt (AFail false true)) = true.
+   exists d, attempt_of true (connect cfg true tls p (SHeader id :: SFeatures f :: rest)) = AFail false d) /\
+  (forall d, is_noise (EAttempt (AFail false d)) = true).
 Proof.
   intros Hc. repeat split.
   - unfold attempt_of, connect. cbn [negb read_header].
-    destruct rest as [|[] r]; try discriminate Hc; reflexivity.
+    destruct rest as [|[] r]; try discriminate Hc; eexists; reflexivity.
   - intros Ht. unfold attempt_of, connect. cbn [negb read_header read_features].
     destruct (f_tls f) eqn:Et; [congruence| |].
-    all: destruct rest as [|[] r]; try discriminate Hc; cbn [read_proceed]; destruct (c_insecure cfg); reflexivity.
+    all: destruct rest as [|[] r]; try discriminate Hc; cbn [read_proceed]; destruct (c_insecure cfg); eexists; reflexivity.
 Qed.
 
 (* rejected credentials are permanent; the Session object stays *)
 Lemma rejected_credentials_permanent cfg tls p id f rest m :
   c_insecure cfg = true -> f_tls f = TlsNone ->
   choose_mech (c_mechs cfg) (f_mechs f) = Some m -> implemented m = true ->
-  attempt_of true (connect cfg true tls p (SHeader id :: SFeatures f :: SSaslFailure :: rest)) = AFail true false.
+  exists d, attempt_of true (connect cfg true tls p (SHeader id :: SFeatures f :: SSaslFailure :: rest)) = AFail true d.
 Proof.
   intros Hi Ht Hm Hp. unfold attempt_of, connect. cbn [negb read_header read_features]. rewrite Ht, Hi.
-  unfold step_auth. rewrite Hm, Hp. reflexivity.
+  unfold step_auth. rewrite Hm, Hp. eexists; reflexivity.
 Qed.
 
 (* ---- resumed when possible, freshly bound otherwise (the step NewSession takes after
